@@ -779,6 +779,7 @@ def translate_imp(module, name, ret, ptext, body, consts, known, imp_known):
         if s.startswith('cdef '):
             raise Unsupported('declaration %r' % s)
         s = re.sub(r'&\s*(\w+)\s*\[\s*0+(\s*,\s*0+)*\s*\]', r'\1', s)
+        s = re.sub(r'&\s*([A-Za-z_]\w*)\s*(?=[,)])', r'__ref__(\1)', s)       # address of a scalar local: an output cell of a scalar kernel
         if '&' in s:
             raise Unsupported('address of an array cell')
         lines.append(ind + s)
@@ -948,6 +949,9 @@ def translate_imp(module, name, ret, ptext, body, consts, known, imp_known):
         raise Unsupported('expression %s' % type(n).__name__)
 
     def bexpr(n):
+        if isinstance(n, ast.Call) and isinstance(n.func, ast.Attribute) and n.func.attr == 'isnan' and len(n.args) == 1:
+            a = fexpr(n.args[0])
+            return '(!(Flt.eqb %s %s))' % (a, a)
         if isinstance(n, ast.BoolOp):
             op = ' && ' if isinstance(n.op, ast.And) else ' || '
             return '(' + op.join(bexpr(v) for v in n.values) + ')'
@@ -996,6 +1000,8 @@ def translate_imp(module, name, ret, ptext, body, consts, known, imp_known):
         if isinstance(node, ast.Expr) and isinstance(node.value, ast.Call) and isinstance(node.value.func, ast.Name):
             f = node.value.func.id
             if f == '__alloc__':
+                continue
+            if f in known and f not in imp_known:
                 continue
             if f not in imp_known:
                 raise Unsupported('call of %s' % f)
@@ -1108,6 +1114,33 @@ def translate_imp(module, name, ret, ptext, body, consts, known, imp_known):
                 for d, src in enumerate(dims):
                     out.append('%s%s_s%d := %s' % (pad, nm_, d, nexpr(ast.parse(src, mode='eval').body)))
                 out.append('%s%s := Array.replicate (%s) (c 0)' % (pad, lean_name(nm_), ' * '.join('%s_s%d' % (nm_, d) for d in range(nd_))))
+            elif isinstance(st, ast.Expr) and isinstance(st.value, ast.Call) and isinstance(st.value.func, ast.Name) and st.value.func.id in cx.known \
+                    and st.value.func.id not in imp_known:
+                f = st.value.func.id
+                kp, kcells, kret = cx.known[f]
+                if kret != 'void' or len(st.value.args) != len(kp):
+                    raise Unsupported('statement call of %s' % f)
+                sargs, refs = [], {}
+                for (pn, pk), a in zip(kp, st.value.args):
+                    if pk == 'scalar':
+                        sargs.append(fexpr(a))
+                    elif pk == 'outptr':
+                        if not (isinstance(a, ast.Call) and isinstance(a.func, ast.Name) and a.func.id == '__ref__' and isinstance(a.args[0], ast.Name)
+                                and kind_of(a.args[0].id) == 'flt' and res(a.args[0].id) not in kinds):
+                            raise Unsupported('output pointer argument of %s' % f)
+                        refs[pn] = ln(a.args[0].id)
+                    else:
+                        raise Unsupported('argument kind %s of %s' % (pk, f))
+                if any(i != 0 for _pn, i in kcells) or {pn for pn, _i in kcells} != set(refs):
+                    raise Unsupported('output cells of %s' % f)
+                cx.calls.add(f)
+                call = '%s %s' % (lean_name(f), ' '.join(sargs + [refs[pn] for pn, _i in kcells]))
+                if len(kcells) == 1:
+                    out.append('%s%s := %s' % (pad, refs[kcells[0][0]], call))
+                else:
+                    out.append('%slet r_ := %s' % (pad, call))
+                    for i, (pn, _i) in enumerate(kcells):
+                        out.append('%s%s := %s' % (pad, refs[pn], proj('r_', i, len(kcells))))
             elif isinstance(st, ast.Expr) and isinstance(st.value, ast.Call) and isinstance(st.value.func, ast.Name):
                 f = st.value.func.id
                 cp, cw, cr = imp_known[f]
